@@ -1,18 +1,21 @@
 #!/bin/sh
-# try_seed.sh <seed-id> <check-id>... : applies the seeded change to /repo's working tree, runs the given checks (quick tier unless
-# VERIF_TIER is set), and ALWAYS restores /repo afterwards.  Evidence/replay files written meanwhile are restored from git.
+# try_seed.sh <seed-id> <check-id>... : runs the given checks (quick tier unless VERIF_TIER is set) against a scratch worktree of
+# /repo with the seeded change applied (VERIF_REPO), with scratch work/evidence directories, then removes the worktree.
+# /repo itself and /verif/evidence are not touched, so this can run while other checks are running.
 id=$1; shift
 P=/verif/seeded/$id/patch.diff
 [ -f "$P" ] || P=/tmp/seed/$id/out/patch.diff
 [ -f "$P" ] || { echo "no patch for $id"; exit 2; }
-git -C /repo diff --quiet || { echo "/repo has local changes; refusing"; exit 2; }
-git -C /repo apply "$P" || { echo "patch does not apply"; exit 2; }
-trap 'git -C /repo checkout -- . ; cd /verif && git checkout -- evidence 2>/dev/null; git -C /verif clean -fdq replays evidence 2>/dev/null' EXIT
+W=/tmp/try_seed/$id.$$
+mkdir -p /tmp/try_seed
+git -C /repo worktree add -f --detach $W/wt HEAD >/dev/null 2>&1 || { echo "worktree failed"; exit 2; }
+trap 'git -C /repo worktree remove --force $W/wt >/dev/null 2>&1; rm -rf $W' EXIT
+git -C $W/wt apply "$P" || { echo "patch does not apply"; exit 2; }
 cd /verif
 for c in "$@"; do
-  ./check $c --tier ${VERIF_TIER:-quick} > /tmp/try_seed_$id_$c.log 2>&1
+  VERIF_REPO=$W/wt VERIF_WORK=$W/work VERIF_OUT=$W/out ./check $c --tier ${VERIF_TIER:-quick} > $W/$c.log 2>&1
   rc=$?
   echo "== seed $id check $c exit=$rc"
-  grep -E "^(VIOLATION|KNOWN-FINDING|INCONCLUSIVE)|^  obligation=" /tmp/try_seed_$id_$c.log | cut -c1-260 | head -12
-  tail -1 /tmp/try_seed_$id_$c.log
+  grep -E "^(VIOLATION|KNOWN-FINDING|INCONCLUSIVE)|^  obligation=" $W/$c.log | cut -c1-260 | head -12
+  tail -1 $W/$c.log
 done
